@@ -98,4 +98,82 @@ theorem applyAll_valid [Inhabited ν] (steps : List (InPlace ν α)) (shape : Sh
         (fun st hst k hk => by rw [hl₁]; exact harity st (by simp [hst]) k hk) h
       exact ⟨s₂, d₂, hl₂.trans hl₁, ht₂⟩
 
+/-! ### the model's histories refine the value-level histories of the specification -/
+
+/-- the value-level reading of an in-place step -/
+def InPlace.toSpec : InPlace ν α → Spec.Step ν α
+  | .reorder d => .reorder d
+  | .transpose d => .transpose d
+  | .reshape s => .reshape s
+  | .rename d => .rename d
+  | .map f => .map f
+  | .mapi f => .mapi f
+
+theorem applyInPlace_eq_spec [Inhabited ν] (shape : Shape ν) (data : List α) (t : Tensor ν α)
+    (ht : Tensor.tryFrom shape data = some t) (step : InPlace ν α)
+    (harity : ∀ k, step.arity = some k → k = shape.length) :
+    t.applyInPlace step =
+      match stepValue ⟨shape, data⟩ step.toSpec with
+      | some v => .ok (Tensor.ofVal v)
+      | none => .panic .explicit := by
+  obtain ⟨_, ht'⟩ := (tryFrom_eq_some_iff shape data t).1 ht
+  cases step with
+  | reorder d =>
+    simp only [Tensor.applyInPlace, InPlace.toSpec, stepValue]
+    rw [reorderMut_eq_reorder' shape data t ht d, (Tensor.reorder_eq_ofData shape data t ht d).1]
+    by_cases hp : IsOrdering shape d <;> simp [hp]
+  | transpose d =>
+    simp only [Tensor.applyInPlace, InPlace.toSpec, stepValue]
+    rw [transposeMut_eq_transpose' shape data t ht d,
+      (Tensor.reorder_eq_ofData shape data t ht d).2]
+    by_cases hp : IsOrdering shape d <;> simp [hp]
+  | reshape s =>
+    simp only [Tensor.applyInPlace, InPlace.toSpec, stepValue]
+    rw [(Tensor.reshape_eq shape data t ht s).2, (Tensor.reshape_eq shape data t ht s).1]
+    by_cases ha : Accepts s data.length <;> simp [ha]
+  | rename d =>
+    simp only [Tensor.applyInPlace, InPlace.toSpec, stepValue]
+    rw [Tensor.rename_eq shape data t ht d (harity _ rfl)]
+    by_cases hn : d.Nodup <;> simp [hn]
+  | map f =>
+    simp only [Tensor.applyInPlace, InPlace.toSpec, stepValue]
+    rw [ht']
+    rfl
+  | mapi f =>
+    simp only [Tensor.applyInPlace, InPlace.toSpec, stepValue]
+    rw [Tensor.mapMutWithIndex_eq f shape data t ht, Tensor.mapWithIndex_eq f shape data t ht]
+
+theorem applyAll_eq_spec [Inhabited ν] (steps : List (InPlace ν α)) (shape : Shape ν)
+    (data : List α) (t : Tensor ν α) (ht : Tensor.tryFrom shape data = some t)
+    (harity : ∀ step ∈ steps, ∀ k, step.arity = some k → k = shape.length) :
+    t.applyAll steps =
+      match runSteps ⟨shape, data⟩ (steps.map InPlace.toSpec) with
+      | some v => .ok (Tensor.ofVal v)
+      | none => .panic .explicit := by
+  induction steps generalizing shape data t with
+  | nil =>
+    obtain ⟨_, ht'⟩ := (tryFrom_eq_some_iff shape data t).1 ht
+    simp only [Tensor.applyAll, List.map_nil, runSteps, ht']
+    rfl
+  | cons step rest ih =>
+    simp only [Tensor.applyAll, List.map_cons, runSteps]
+    rw [applyInPlace_eq_spec shape data t ht step (harity step (by simp))]
+    cases hv : stepValue ⟨shape, data⟩ step.toSpec with
+    | none => rfl
+    | some v =>
+      simp only
+      -- the intermediate tensor is again one the constructors accept, of the same dimensionality
+      have hok : t.applyInPlace step = .ok (Tensor.ofVal v) := by
+        rw [applyInPlace_eq_spec shape data t ht step (harity step (by simp)), hv]
+      obtain ⟨s₁, d₁, hl₁, ht₁⟩ :=
+        applyInPlace_valid shape data t _ ht step (harity step (by simp)) hok
+      obtain ⟨_, he⟩ := (tryFrom_eq_some_iff s₁ d₁ _).1 ht₁
+      have hs : s₁ = v.shape := by
+        have := congrArg Tensor.shape he; simpa [Tensor.ofVal] using this.symm
+      have hd : d₁ = v.elems := by
+        have := congrArg Tensor.data he; simpa [Tensor.ofVal] using this.symm
+      subst hs hd
+      exact ih v.shape v.elems _ ht₁
+        (fun st hst k hk => by rw [hl₁]; exact harity st (by simp [hst]) k hk)
+
 end EasyMl
